@@ -542,40 +542,60 @@ pub fn expected_cols(m: &Model, chars: &[(u8, bool)]) -> Expected {
 	e
 }
 
-/// Compare observed columns with the expectation. Returns human-readable
-/// differences (empty = agree). `what` names the observation route.
-pub fn diff_expected(e: &Expected, c: &Cols, what: &str, max: usize) -> Vec<String> {
-	let mut d = vec![];
+#[derive(Default, Debug)]
+pub struct Diff {
+	/// field placement / width / endianness / version gating (C03)
+	pub fields: Vec<String>,
+	/// rows, presence, item grouping, column lengths (C04)
+	pub structure: Vec<String>,
+}
+
+impl Diff {
+	pub fn is_empty(&self) -> bool {
+		self.fields.is_empty() && self.structure.is_empty()
+	}
+}
+
+/// Compare observed columns with the expectation. `what` names the
+/// observation route. At most `max` messages per category.
+pub fn diff_expected(e: &Expected, c: &Cols, what: &str, max: usize) -> Diff {
+	let mut d = Diff::default();
 	if c.rows != e.rows {
-		d.push(format!("{}: rows {} != occurrences {}", what, c.rows, e.rows));
+		d.structure.push(format!("{}: rows {} != occurrences {}", what, c.rows, e.rows));
 	}
 	for (path, (ty, col)) in &e.leaves {
 		match c.leaves.get(path) {
-			None => d.push(format!("{}: field {} missing (spec says present for this version)", what, path)),
+			None => d.fields.push(format!("{}: field {} missing (spec says present for this version)", what, path)),
 			Some((t2, vals)) => {
 				if t2 != ty {
-					d.push(format!("{}: field {} has type {} want {}", what, path, t2, ty));
+					d.fields.push(format!("{}: field {} has type {} want {}", what, path, t2, ty));
 				}
 				if vals.len() != col.len() {
-					d.push(format!("{}: field {} has {} entries want {}", what, path, vals.len(), col.len()));
+					d.structure.push(format!("{}: column {} has {} entries want {}", what, path, vals.len(), col.len()));
 				}
 				for (i, (want, got)) in col.iter().zip(vals.iter()).enumerate() {
 					if let Some(w) = want {
 						if w != got {
-							d.push(format!("{}: {}[{}] = {:#x} want {:#x}", what, path, i, got, w));
+							// is the wanted value sitting in another row of the same column? then it is a row misalignment
+							let elsewhere = vals.iter().position(|x| x == w);
+							let msg = format!("{}: {}[{}] = {:#x} want {:#x}{}", what, path, i, got, w, elsewhere.map_or(String::new(), |j| format!(" (wanted value found at row {})", j)));
+							if elsewhere.is_some() && w > &0xff {
+								d.structure.push(msg.clone());
+							}
+							d.fields.push(msg);
 							break;
 						}
 					}
 				}
 			}
 		}
-		if d.len() >= max {
-			return d;
+		if d.fields.len() >= max && d.structure.len() >= max {
+			break;
 		}
 	}
 	for path in c.leaves.keys() {
 		if !e.leaves.contains_key(path) {
-			d.push(format!("{}: field {} present but spec says absent for this version", what, path));
+			d.fields.push(format!("{}: field {} present but spec says absent for this version", what, path));
 		}
 	}
 	for (path, pres) in &e.presence {
@@ -583,29 +603,99 @@ pub fn diff_expected(e: &Expected, c: &Cols, what: &str, max: usize) -> Vec<Stri
 			Some(Some(v)) => v.clone(),
 			Some(None) => vec![true; c.rows],
 			None => {
-				d.push(format!("{}: no struct {}", what, path));
+				d.structure.push(format!("{}: no struct {}", what, path));
 				continue;
 			}
 		};
 		if &got != pres {
 			let i = got.iter().zip(pres.iter()).position(|(a, b)| a != b).unwrap_or(got.len().min(pres.len()));
-			d.push(format!("{}: presence of {} differs at row {} (got len {}, want len {})", what, path, i, got.len(), pres.len()));
+			d.structure.push(format!("{}: presence of {} differs at row {} (got {} bits, want {})", what, path, i, got.len(), pres.len()));
+		}
+	}
+	// characters that are not occupied must not have columns at all
+	for path in c.validity.keys() {
+		if path.starts_with("ports.") && (path.ends_with(".leader") || path.ends_with(".follower")) && !e.presence.contains_key(path) {
+			d.structure.push(format!("{}: columns exist for unoccupied character {}", what, path));
 		}
 	}
 	if e.item_offsets != c.item_offsets {
-		d.push(format!("{}: item offsets {:?} want {:?}", what, c.item_offsets.as_ref().map(|o| o.iter().take(12).collect::<Vec<_>>()), e.item_offsets.as_ref().map(|o| o.iter().take(12).collect::<Vec<_>>())));
+		let head = |o: &Option<Vec<i32>>| o.as_ref().map(|o| (o.len(), o.iter().take(12).cloned().collect::<Vec<_>>()));
+		d.structure.push(format!("{}: item offsets (len, head) {:?} want {:?}", what, head(&c.item_offsets), head(&e.item_offsets)));
 	}
 	// every validity bitmap that exists has one bit per row (or per item)
 	for (path, v) in &c.validity {
 		if let Some(bits) = v {
 			let want = if path.starts_with("item") { c.leaves.get("item.type").map_or(0, |x| x.1.len()) } else { c.rows };
 			if bits.len() != want {
-				d.push(format!("{}: validity of {} has {} bits want {}", what, path, bits.len(), want));
+				d.structure.push(format!("{}: validity of {} has {} bits want {}", what, path, bits.len(), want));
 			}
 		}
 	}
-	d.truncate(max);
+	d.fields.truncate(max);
+	d.structure.truncate(max);
 	d
+}
+
+/// Expected Arrow schema, rendered like `schema_lines`, from the spec tables.
+pub fn expected_schema(v: V, chars: &[(u8, bool)]) -> Vec<String> {
+	fn emit_struct(name: &str, fields: &[(String, &'static str)], prefix: &str, out: &mut Vec<String>) {
+		// group dotted paths by first component, in order
+		let mut order: Vec<String> = vec![];
+		for (p, _) in fields {
+			let head = p.split('.').next().unwrap().to_string();
+			if !order.contains(&head) {
+				order.push(head);
+			}
+		}
+		out.push(format!("{}: Struct[{}]", name, order.len()));
+		for head in order {
+			let subs: Vec<(String, &'static str)> = fields.iter().filter(|(p, _)| p.split('.').next().unwrap() == head).map(|(p, t)| (p[head.len()..].trim_start_matches('.').to_string(), *t)).collect();
+			if subs.len() == 1 && subs[0].0.is_empty() {
+				out.push(format!("{}{}: {}", prefix, head, subs[0].1));
+			} else {
+				emit_struct(&format!("{}{}", prefix, head), &subs, &format!("{}{}.", prefix, head), out);
+			}
+		}
+	}
+	let tbl = |k: Kind| -> Vec<(String, &'static str)> { k.fields(v).iter().map(|f| (f.path.to_string(), f.ty.arrow_name())).collect() };
+	let mut out = vec![];
+	let mut n = 2;
+	if Kind::FStart.exists(v) {
+		n += 1;
+	}
+	if Kind::Item.exists(v) {
+		n += 2;
+	}
+	out.push(format!("<root>: Struct[{}]", n));
+	out.push("id: Int32".to_string());
+	let ports: Vec<u8> = {
+		let mut p: Vec<u8> = chars.iter().map(|c| c.0).collect();
+		p.dedup();
+		p
+	};
+	out.push(format!("ports: Struct[{}]", ports.len()));
+	for p in ports {
+		let ics = chars.contains(&(p, true));
+		let base = format!("ports.{}", port_name(p));
+		out.push(format!("{}: Struct[{}]", base, if ics { 2 } else { 1 }));
+		for who in ["leader", "follower"] {
+			if who == "follower" && !ics {
+				continue;
+			}
+			out.push(format!("{}.{}: Struct[2]", base, who));
+			emit_struct(&format!("{}.{}.pre", base, who), &tbl(Kind::Pre), &format!("{}.{}.pre.", base, who), &mut out);
+			emit_struct(&format!("{}.{}.post", base, who), &tbl(Kind::Post), &format!("{}.{}.post.", base, who), &mut out);
+		}
+	}
+	if Kind::FStart.exists(v) {
+		emit_struct("start", &tbl(Kind::FStart), "start.", &mut out);
+	}
+	if Kind::Item.exists(v) {
+		emit_struct("end", &tbl(Kind::FEnd), "end.", &mut out);
+		out.push("item: List<item>".to_string());
+		emit_struct("item", &tbl(Kind::Item), "item.", &mut out);
+	}
+	out
 }
 
 pub fn occupied_chars(start_block: &[u8]) -> Vec<(u8, bool)> {
